@@ -304,9 +304,18 @@ def validate_events(module, events, name, shards=None, deque=False, boundary=Non
     return verdicts, states, trans
 
 
-def spec_hash():
+MODEL_DEPS = {"MC_Crc": ["Bits", "Crc", "MC_Crc"], "MC_ModeAC": ["ModeAC", "MC_ModeAC"], "MC_CPR": ["CPR", "MC_CPR"],
+              "MC_Tracker": ["Tracker", "MC_Tracker"]}
+
+
+def spec_hash(module=None):
     h = hashlib.sha256()
+    only = None
+    if module in MODEL_DEPS:
+        only = {m + ext for m in MODEL_DEPS[module] for ext in (".tla", ".cfg")}
     for fn in sorted(os.listdir(SPEC)):
+        if only is not None and fn not in only and not (fn.startswith(module) and fn.endswith(".cfg")):
+            continue
         if fn.endswith((".tla", ".cfg")):
             h.update(fn.encode())
             h.update(open(os.path.join(SPEC, fn), "rb").read())
@@ -317,7 +326,7 @@ def run_mc(module, cfg=None, workers=8, timeout=1800, xmx="8g", cache=True, extr
     """Step D: model-check an MC_* module; result cached by the hash of spec/ (it does not depend
     on /repo). Returns dict(ok, states, transitions, output, violated)"""
     cfg = cfg or module
-    key = f"{module}-{cfg}-{spec_hash()}"
+    key = f"{module}-{cfg}-{spec_hash(module)}"
     cdir = os.path.join(BUILD, "stepd")
     os.makedirs(cdir, exist_ok=True)
     cpath = os.path.join(cdir, key + ".json")
